@@ -186,6 +186,8 @@ class Canon:
             self.slice_aliases(body)
             self.fill_calls(body)
             self.for_each_loops(body)
+            self.slice_aliases(body)         # an alias that was captured by a `for_each` closure is a plain alias now
+            self.demote_accumulators(body)
             self.fold_tuple_loops(body)
             self.fold_loops(body)
             self.self_select(body)
@@ -643,8 +645,76 @@ class Canon:
             self.stats["assign_forms"] += 1
 
     # ------------------------------------------------------------------ P13
+    def demote_accumulators(self, body):
+        """`let mut a = X[i]; for .. { a += e; } X[i] = a;` (a used nowhere else, the loop neither reads nor writes X)  ->
+        `for .. { X[i] += e; }`: a register copy of an accumulator cell, written back once."""
+        for blk in [n for n in _walk(body) if n.get("k") == "Block"]:
+            sts = blk.get("stmts", [])
+            i = 0
+            while i + 2 < len(sts) + 0:
+                a_, l_, w_ = sts[i], sts[i + 1], sts[i + 2]
+                i += 1
+                if a_.get("k") != "Let" or a_.get("pat", {}).get("k") != "Bind" or not a_["pat"].get("mut") or a_.get("init") is None:
+                    continue
+                cell = _strip(a_["init"])
+                lp = _strip(l_.get("e") or {}) if l_.get("k") in ("Semi", "Expr") else {}
+                wb = _strip(w_.get("e") or {}) if w_.get("k") in ("Semi", "Expr") else {}
+                if cell.get("k") != "Index" or lp.get("k") not in ("For", "While") or wb.get("k") != "Assign" or not self._pure(cell):
+                    continue
+                av = a_["pat"]["v"]
+                if not (_strip(wb["r"]).get("k") == "Local" and _strip(wb["r"]).get("v") == av and _same_pure(_strip(wb["l"]), cell)):
+                    continue
+                uses = [x for x in _walk(body) if x.get("k") == "Local" and x.get("v") == av]
+                in_loop = [x for x in _walk(lp) if x.get("k") == "Local" and x.get("v") == av]
+                if len(uses) != len(in_loop) + 1:
+                    continue
+                # inside the loop `a` appears only as the target of compound assignments
+                tg = [y for y in _walk(lp) if y.get("k") == "AssignOp" and _strip(y["l"]).get("k") == "Local" and _strip(y["l"]).get("v") == av]
+                if len(tg) != len(in_loop) or not tg:
+                    continue
+                base = _strip(cell["base"])
+                bv = base.get("v") if base.get("k") == "Local" else None
+                if bv is None or any(x.get("k") == "Local" and x.get("v") == bv for x in _walk(lp)):
+                    continue
+                idx_vars = {x.get("v") for x in _walk(cell["idx"]) if x.get("k") == "Local"}
+                if any(y.get("k") in ("Assign", "AssignOp") and _strip(y["l"]).get("k") == "Local" and _strip(y["l"]).get("v") in idx_vars for y in _walk(lp)):
+                    continue
+                for y in tg:
+                    c_ = copy.deepcopy(cell)
+                    for x in _walk(c_):
+                        if "id" in x:
+                            x["id"] = self._id()
+                        if x.get("sp") and y["l"].get("sp"):
+                            x["sp"] = list(y["l"]["sp"])
+                    y["l"] = c_
+                blk["stmts"] = [x for x in sts if x is not a_ and x is not w_]
+                sts = blk["stmts"]
+                self.stats["demoted_accumulators"] = self.stats.get("demoted_accumulators", 0) + 1
+                i = 0
+
     def mem_replace(self, body):
         """`let old = mem::replace(place, v);`  ->  `let old = *place; *place = v;`  (v side-effect free and not reading place)"""
+        # `acc += mem::replace(place, v);` (built-in arithmetic: the right operand is evaluated first)  ->  `let t = mem::replace(place, v); acc += t;`
+        for blk in [n for n in _walk(body) if n.get("k") == "Block"]:
+            out0, ch0 = [], False
+            for st in blk.get("stmts", []):
+                e = _strip(st.get("e") or {}) if st.get("k") in ("Semi", "Expr") else {}
+                r = _strip(e.get("r") or {}) if e.get("k") == "AssignOp" and not e.get("fn") else {}
+                if r.get("k") == "Call" and _callee(r) in ("std::mem::replace", "core::mem::replace") and len(r.get("args", [])) == 2 and self._pure(r["args"][1]) and self._pure(e["l"]):
+                    self.fresh += 1
+                    v = self.fresh
+                    sp = st.get("sp") or [0, 0, 0, 0]
+                    let = {"k": "Let", "pat": {"k": "Bind", "v": v, "name": "__old%d" % v, "mut": False, "byref": False, "ty": r.get("ty")}, "init": dict(r),
+                           "sp": [sp[0], sp[1] - 0.4, sp[0], sp[1] - 0.35]}
+                    keep = {kk: r.get(kk) for kk in ("ty", "sp")}
+                    r.clear()
+                    r.update({"k": "Local", "v": v, "name": "__old%d" % v, "id": self._id()})
+                    r.update({kk: vv for kk, vv in keep.items() if vv is not None})
+                    out0.append(let)
+                    ch0 = True
+                out0.append(st)
+            if ch0:
+                blk["stmts"] = out0
         for blk in [n for n in _walk(body) if n.get("k") == "Block"]:
             out = []
             ch = False
@@ -1785,11 +1855,38 @@ class Canon:
                 if st.get("k") == "Let" and st.get("pat", {}).get("k") == "Bind" and not st["pat"].get("mut") and not st["pat"].get("byref") and st.get("init") is not None:
                     i0 = _strip(st["init"])
                     sr_ = self._subrange(i0) if i0.get("k") == "AddrOf" else None
-                    if sr_ is not None and self._pure(sr_[0]) and all(x_ is None or self._pure(x_) for x_ in sr_[1:3]):
+                    whole = False
+                    if sr_ is None and i0.get("k") == "AddrOf" and isinstance(i0.get("e"), dict):
+                        # `let t = &mut self.val;`: a borrow of a whole field (a path of fields from a local), nothing evaluated
+                        pl = _strip(i0["e"])
+                        depth = 0
+                        while pl.get("k") == "Field":
+                            pl = _strip(pl["e"])
+                            depth += 1
+                        whole = depth >= 1 and pl.get("k") == "Local"
+                    if whole or (sr_ is not None and self._pure(sr_[0]) and all(x_ is None or self._pure(x_) for x_ in sr_[1:3])):
                         v = st["pat"]["v"]
                         uses = [y for y in _walk(blk) if y.get("k") == "Local" and y.get("v") == v]
                         in_closure = any(c_.get("k") == "Closure" and any(y.get("k") == "Local" and y.get("v") == v for y in _walk(c_)) for c_ in _walk(blk))
                         if uses and not in_closure:        # (a sub-slice captured by a closure stays a named borrow: what is captured matters to the rules)
+                            if whole:
+                                # where the use auto-dereferences the borrow (index base, method receiver, explicit `*`) the place itself stands there
+                                for y in list(_walk(blk)):
+                                    for slot in (("base",) if y.get("k") == "Index" else ("recv",) if y.get("k") == "MethodCall" else ("e",) if y.get("k") == "Unary" and y.get("op") == "*" else ()):
+                                        t_ = y.get(slot)
+                                        if isinstance(t_, dict) and _strip(t_).get("k") == "Local" and _strip(t_).get("v") == v:
+                                            pc = copy.deepcopy(i0["e"])
+                                            if slot == "e":
+                                                ksp = y.get("sp")
+                                                y.clear()
+                                                y.update(pc)
+                                                if ksp:
+                                                    y["sp"] = ksp
+                                            else:
+                                                if t_.get("sp"):
+                                                    pc["sp"] = t_["sp"]
+                                                y[slot] = pc
+                                uses = [y for y in _walk(blk) if y.get("k") == "Local" and y.get("v") == v]
                             for u in uses:
                                 cp = copy.deepcopy(i0)
                                 keepk = {kk: u.get(kk) for kk in ("sp", "adj")}
@@ -2168,6 +2265,18 @@ class Canon:
             if m_.get("name") == "map" and len(m_.get("args", [])) == 1 and m_.get("fn") == "std::iter::Iterator::map":
                 cl_ = _strip(m_["args"][0])
                 return cl_.get("k") == "Closure" and len(cl_.get("params", [])) == 1 and not any(n.get("k") in ("Ret", "Try") for n in _walk(cl_["body"]))
+            if m_.get("name") == "flat_map" and len(m_.get("args", [])) == 1 and m_.get("fn") == "std::iter::Iterator::flat_map":
+                # (A..B).flat_map(|j| (C..D).map(move |k| e)).collect(): two nested range loops
+                cl_ = _strip(m_["args"][0])
+                if cl_.get("k") == "Closure" and len(cl_.get("params", [])) == 1 and cl_["params"][0].get("k") == "Bind" and _strip(m_["recv"]).get("k") == "Range":
+                    b_ = _strip(cl_["body"])
+                    while b_.get("k") == "Block" and not b_.get("stmts") and b_.get("expr") is not None:
+                        b_ = _strip(b_["expr"])
+                    if b_.get("k") == "MethodCall" and b_.get("name") == "map" and b_.get("fn") == "std::iter::Iterator::map" and _strip(b_["recv"]).get("k") == "Range":
+                        c2 = _strip(b_["args"][0])
+                        return c2.get("k") == "Closure" and len(c2.get("params", [])) == 1 and c2["params"][0].get("k") == "Bind" and \
+                            not any(n.get("k") in ("Ret", "Try") for n in _walk(c2["body"]))
+                return False
             return m_.get("name") in ("copied", "cloned") and not m_.get("args")
 
         for blk in [n for n in _walk(body) if n.get("k") == "Block"]:
@@ -2215,6 +2324,33 @@ class Canon:
                 if not is_chain(c):
                     continue
                 m = _strip(c["recv"])
+                if m.get("name") == "flat_map":
+                    cl1 = _strip(m["args"][0])
+                    b_ = _strip(cl1["body"])
+                    while b_.get("k") == "Block" and not b_.get("stmts") and b_.get("expr") is not None:
+                        b_ = _strip(b_["expr"])
+                    cl2 = _strip(b_["args"][0])
+                    sp = st.get("sp") or [0, 0, 0, 0]
+                    csp = c.get("sp") or sp
+                    v = st["pat"]["v"]
+                    vty = st["pat"].get("ty", c.get("ty"))
+                    e2 = cl2["body"]
+                    push = {"k": "MethodCall", "name": "push", "fn": "std::vec::Vec<T, A>::push", "impl": "std::vec::Vec<T, A>::push", "fn_local": False,
+                            "recv": {"k": "Local", "v": v, "name": st["pat"].get("name"), "id": self._id(), "adj": "&mut " + str(vty), "ty": vty, "sp": list(e2.get("sp") or csp)},
+                            "args": [e2], "id": self._id(), "ty": "()", "sp": list(e2.get("sp") or csp)}
+                    inner = {"k": "For", "pat": cl2["params"][0], "iter": _strip(b_["recv"]),
+                             "body": {"k": "Block", "stmts": [{"k": "Semi", "e": push, "sp": list(push["sp"])}], "id": self._id(), "ty": "()", "sp": list(cl2.get("sp") or csp)},
+                             "id": self._id(), "ty": "()", "sp": list(b_.get("sp") or csp), "canon": "collect-loop"}
+                    outer = {"k": "For", "pat": cl1["params"][0], "iter": _strip(m["recv"]),
+                             "body": {"k": "Block", "stmts": [{"k": "Expr", "e": inner, "sp": list(inner["sp"])}], "id": self._id(), "ty": "()", "sp": list(cl1.get("sp") or csp)},
+                             "id": self._id(), "ty": "()", "sp": [csp[0], csp[1] + 0.0005, csp[2], csp[3]], "canon": "collect-loop"}
+                    st["pat"] = dict(st["pat"], mut=True)
+                    st["init"] = {"k": "Call", "f": {"k": "Def", "dk": "AssocFn", "fn": "std::vec::Vec<T>::new", "fn_local": False, "id": self._id(), "ty": "fn", "sp": list(csp)},
+                                  "args": [], "id": self._id(), "ty": vty, "sp": list(csp)}
+                    st["sp"] = [sp[0], sp[1], csp[0], csp[1] + 0.0002]
+                    out.append({"k": "Expr", "e": outer, "sp": list(outer["sp"])})
+                    changed = True
+                    continue
                 if m.get("name") in ("copied", "cloned"):
                     # X.iter().copied().collect(): push each element
                     self.fresh += 1
